@@ -24,7 +24,7 @@ import (
 //   realpath <base-hex> <name-hex>                              model RealPath vs (*BasePathFs).RealPath
 //   httppath <base-hex> <name-hex>                              name handed to the source by httpDir.Open
 //   op <kind> <root-hex> <method> <name-hex> [<name2-hex>]      oracle only: outside of root untouched / unread
-//        kind ∈ bp | nest | sub | http
+//        kind ∈ bp | nest | sub | subbp | http
 // ---------------------------------------------------------------------------------------
 
 const canary = "CANARY-OUTSIDE-"
@@ -142,6 +142,11 @@ func c08Op(t []string) string {
 	case "sub":
 		sub, _ := afero.NewIOFS(m).Sub(root)
 		fs = afero.FromIOFS{FS: sub}
+	case "subbp": // root = outer + "|" + dir: IOFS over a BasePathFs, then Sub(dir) — the region is the same as for nest
+		parts := strings.SplitN(root, "|", 2)
+		sub, _ := afero.NewIOFS(afero.NewBasePathFs(m, parts[0])).Sub(parts[1])
+		fs = afero.FromIOFS{FS: sub}
+		croot = filepath.Join(parts[0], filepath.Clean("/"+parts[1]))
 	case "http":
 	}
 	if method == "rename" {
@@ -547,6 +552,7 @@ func c08Exhaustive(tier string) []corr.Case {
 		{"bp", "/base"}, {"bp", "/base/"}, {"bp", "/base/sub/.."}, {"nest", "/|base"}, {"nest", "/base|sub"},
 		{"nest", "/base|/../basement"}, {"nest", "/base|../other"}, {"nest", "/base/sub|deep/../../../basement"},
 		{"http", "/base"}, {"sub", "/base"}, {"bpre", "/base"},
+		{"subbp", "/base|sub"}, {"subbp", "/base|../other"}, {"subbp", "/base|../basement"}, {"subbp", "/base/sub|deep/../../../basement"}, {"subbp", "/base|sub/../.."},
 	}
 	// names that begin with the root's own path and then climb out of it
 	selfPrefixed := []string{"/base/../secret", "/base//../basement/secret", "/base/sub/../../secret", "base/../secret", "/base/../basement", "/base/..", "/base/in.txt", "/base/../base/in.txt"}
@@ -561,7 +567,7 @@ func c08Exhaustive(tier string) []corr.Case {
 				continue
 			}
 			for _, m := range c08Methods {
-				if r.kind == "sub" && m != "stat" && m != "open" && m != "readfile" && m != "readdir" {
+				if (r.kind == "sub" || r.kind == "subbp") && m != "stat" && m != "open" && m != "readfile" && m != "readdir" {
 					continue
 				}
 				add(fmt.Sprintf("op %s %s %s %s", r.kind, corr.HexS(r.root), m, corr.HexS(n)))
@@ -615,16 +621,16 @@ func c08Random(r *corr.Rand, tier string) []corr.Case {
 			case 2:
 				lines = append(lines, "realpath "+corr.HexS(root)+" "+corr.HexS(name), "httppath "+corr.HexS(root)+" "+corr.HexS(name))
 			default:
-				kind := corr.Pick(rr, []string{"bp", "bp", "http", "sub", "nest"})
+				kind := corr.Pick(rr, []string{"bp", "bp", "http", "sub", "nest", "subbp"})
 				rt := corr.Pick(rr, []string{"/base", "/base/", "/base/sub", "/base/./sub/.."})
-				if kind == "nest" {
+				if kind == "nest" || kind == "subbp" {
 					rt = corr.Pick(rr, []string{"/base", "/base/sub", "/"}) + "|" + corr.Pick(rr, []string{"sub", "/../basement", "../other", "/..", "deep/../../..", strings.ReplaceAll(mk(), "|", "")})
 				}
 				m := corr.Pick(rr, c08Methods)
 				if kind == "http" {
 					m = "open"
 				}
-				if kind == "sub" {
+				if kind == "sub" || kind == "subbp" {
 					m = corr.Pick(rr, []string{"stat", "open", "readfile", "readdir"})
 				}
 				if rr.Chance(15) && (kind == "bp" || kind == "nest") {
